@@ -8,7 +8,7 @@ package util
 // these clauses as obligations on its own methods; containers reason about children only through them).
 // size() and wf() are per-kind spec functions (uninterpreted for a value of unknown dynamic type).
 //@ iface Message
-//@ method Len() (n) [C06 C13 C01 C02]
+//@ method Len() (n) [C06 C13 C01 C02 C03]
 //@   requires wfl(self)
 //@   ensures n == uint16(size(self))
 //@   ensures size(self) == old(size(self)) && (old(wf(self)) ==> wf(self))
